@@ -31,7 +31,7 @@ PLAN = {
     "C02": (["core"], [("pegsim", [])]),
     "C03": (["core"], [("pegsim", [])]),
     "C05": (["core"], [("pegsim", [])]),
-    "C07": (["core"], [("pegsim", [])]),
+    "C07": (["core", "io"], [("pegsim", []), ("pegsim-io", [])]),
     "C08": (["core", "cov"], [("pegsim", []), ("pegsim-cov", [])]),
     "C12": (["tree"], [("pegsim-tree", [])]),
     "C13": (["core"], [("pegsim", [])]),
@@ -61,9 +61,11 @@ COMPONENTS = {
         "memory_input, buffer_input (require/discard/size/empty/end), input_with_depth, rewind and unwind guards",
         "try_catch_*, must family, raise, state<>, change_state/states/action/control, enable/disable(_action), limit_bytes, limit_depth, check_bytes, discard rules/actions",
         "parse_tree::parse + make_control (C12), state_control + coverage_state (C08)",
+        "string_input, argv_input, read_input (+ read_file_stdio, glibc stdio), mmap_input/file_input (+ mmap_file_posix, kernel mmap on a real temp file), cstream_input (+ cstream_reader, glibc fread over fopencookie), istream_input (+ istream_reader, libstdc++ istream::read) (C07 I/O jobs)",
     ],
     "stub": [
         "Reader (sim_reader: delivers the planned number of bytes, can throw)",
+        "I/O jobs: fopencookie read/seek callbacks, a streambuf (xsgetn), --wrap'ed open/fopen/fstat/mmap/munmap/fread that fail per plan or pass through to libc",
         "Control (sim_control/ctl2: record, then delegate to normal<Rule>)",
         "Action / state classes (record, veto by a deterministic predicate, throw per plan)",
         "thin input subclasses that record/poison and forward to the real base class",
